@@ -9,6 +9,7 @@ import (
 
 	"verif/mc/core"
 	"verif/mc/tm"
+	"verif/mc/ut"
 )
 
 func init() {
@@ -120,6 +121,19 @@ func evalC02(s c02State) string {
 			return fail("panic-after-transfer", "Is panics after transfer: %v", pp)
 		}
 		if got == base {
+			// IsAny with a reference of the same text but another type listed
+			// first must still be the disjunction
+			if rh != nil {
+				decoy := &ut.PtrLeaf{Msg: errText(rh)}
+				dIs, _ := tm.IsG(eh, decoy)
+				var anyGot bool
+				if p := tm.Guard(func() { anyGot = errors.IsAny(eh, decoy, rh) }); p != nil {
+					return fail("isany-panic", "IsAny panics after transfer: %v", p)
+				}
+				if anyGot != (got || dIs) {
+					return fail("isany-after-transfer", "IsAny(e', sameTextOtherType, r') = %v but Is(e', r') = %v and Is(e', decoy) = %v (e:%s r:%s)", anyGot, got, dIs, s.EHist, s.RHist)
+				}
+			}
 			return ""
 		}
 		// exemptions
